@@ -199,3 +199,252 @@ Proof.
     split; [nia|]. split; [|intros; lia].
     intros _ T. apply R2. nia.
 Qed.
+
+(* ---------------------------------------------------------------- every result is a decimal128 datum: coefficient below 10^34 *)
+Lemma round_half_even_bound : forall m drop k, (m < 10 ^ (k + drop))%N -> (round_half_even m drop <= 10 ^ k)%N.
+Proof.
+  intros m drop k H. unfold round_half_even. destruct (drop =? 0)%N eqn:E0.
+  - apply N.eqb_eq in E0. subst drop. rewrite N.add_0_r in H. lia.
+  - rewrite N.pow_add_r in H.
+    assert (Hq : (m / 10 ^ drop < 10 ^ k)%N).
+    { apply N.div_lt_upper_bound; [apply N.pow_nonzero; lia | lia]. }
+    destruct ((5 * 10 ^ (drop - 1) <? m mod 10 ^ drop)%N || (m mod 10 ^ drop =? 5 * 10 ^ (drop - 1))%N && N.odd (m / 10 ^ drop)); lia.
+Qed.
+
+Theorem round34_in_format : forall s m e d, round34 s m e = Some d -> in_format d = true.
+Proof.
+  intros s m e d H. unfold in_format.
+  destruct (m =? 0)%N eqn:E0.
+  - unfold round34 in H. rewrite E0 in H. apply some_inj in H. subst d. cbn [coef expo]. unfold clamp_exp.
+    apply andb_true_iff. split; [apply andb_true_iff; split|].
+    + reflexivity.
+    + apply Z.leb_le. lia.
+    + apply Z.leb_le. unfold ETINY, ETOP. lia.
+  - apply N.eqb_neq in E0. assert (Hm : (0 < m)%N) by lia.
+    destruct (round34_value s m e d Hm H) as (_ & V2 & _).
+    assert (Hc : (coef d < 10 ^ PREC)%N).
+    { unfold round34 in H. assert (m =? 0 = false)%N as E0' by (apply N.eqb_neq; lia). rewrite E0' in H.
+      destruct (target_exp_ge m e) as [T1 T2].
+      destruct (ndigits_spec m Hm) as [[_ U] P1].
+      assert (Tn : Z.of_N (ndigits m) - 34 <= target_exp m e - e) by (unfold target_exp, PREC; lia).
+      set (e1 := target_exp m e) in *. set (c1 := round_half_even m (Z.to_N (e1 - e))) in *.
+      assert (Hc1 : (c1 <= 10 ^ PREC)%N).
+      { unfold c1. apply round_half_even_bound.
+        eapply N.lt_le_trans; [exact U|]. apply N.pow_le_mono_r; [lia|]. unfold PREC. lia. }
+      destruct (c1 =? 10 ^ PREC)%N eqn:Ec.
+      - destruct (EMAX <? e1 + 1 + Z.of_N (ndigits (10 ^ (PREC - 1))) - 1) eqn:Eo; [discriminate H|].
+        apply Z.ltb_ge in Eo. change (ndigits (10 ^ (PREC - 1))) with 34%N in Eo.
+        destruct (ETOP <? e1 + 1) eqn:Et.
+        + apply Z.ltb_lt in Et. exfalso. unfold EMAX, ETOP in *. lia.
+        + apply some_inj in H. subst d. cbn [coef]. change (10 ^ (PREC - 1) < 10 ^ PREC)%N. reflexivity.
+      - apply N.eqb_neq in Ec. assert (Hlt : (c1 < 10 ^ PREC)%N) by lia.
+        destruct (EMAX <? e1 + Z.of_N (ndigits c1) - 1) eqn:Eo; [discriminate H|]. apply Z.ltb_ge in Eo.
+        destruct (ETOP <? e1) eqn:Et.
+        + apply Z.ltb_lt in Et. apply some_inj in H. subst d. cbn [coef].
+          destruct (N.eq_dec c1 0) as [Z0|NZ]; [rewrite Z0, N.mul_0_l; apply N.neq_0_lt_0, N.pow_nonzero; lia|].
+          destruct (ndigits_spec c1 ltac:(lia)) as [[_ U1] _].
+          assert (Hk : (ndigits c1 + Z.to_N (e1 - ETOP) <= PREC)%N) by (unfold EMAX, ETOP, PREC in *; lia).
+          eapply N.lt_le_trans; [apply N.mul_lt_mono_pos_r; [apply N.neq_0_lt_0, N.pow_nonzero; lia | exact U1]|].
+          rewrite <- N.pow_add_r. apply N.pow_le_mono_r; lia.
+        + apply some_inj in H. subst d. cbn [coef]. exact Hlt. }
+    apply andb_true_iff. split; [apply andb_true_iff; split|].
+    + apply N.ltb_lt. exact Hc.
+    + apply Z.leb_le. lia.
+    + apply Z.leb_le. lia.
+Qed.
+
+(* ---------------------------------------------------------------- the sticky-digit argument of division *)
+(* q = n / b with one extra digit that only says whether the division left a remainder: as soon as at least two digits
+   are dropped, rounding 10*q + sticky is rounding the exact quotient n / b: nearest, ties to even.
+   (ddiv produces at least 36 quotient digits, so at least three digits are dropped.) *)
+Lemma div_sticky : forall n b D, (0 < b)%N -> (2 <= D)%N ->
+  let q := (n / b)%N in let r := (n mod b)%N in
+  let m := (10 * q + (if (r =? 0)%N then 0 else 1))%N in
+  let c := Z.of_N (round_half_even m D) in let P := Z.of_N (10 ^ (D - 1)) in
+  2 * Z.abs (c * P * Z.of_N b - Z.of_N n) <= P * Z.of_N b /\
+  (2 * Z.abs (c * P * Z.of_N b - Z.of_N n) = P * Z.of_N b -> Z.even c = true).
+Proof.
+  intros n b D Hb HD. cbv zeta.
+  pose proof (N.div_mod n b ltac:(lia)) as DM. pose proof (N.mod_lt n b ltac:(lia)) as ML.
+  set (q := (n / b)%N) in *. set (r := (n mod b)%N) in *.
+  set (s := (if (r =? 0)%N then 0 else 1)%N).
+  assert (Hs : ((s = 0 /\ r = 0) \/ (s = 1 /\ 0 < r))%N).
+  { unfold s. destruct (r =? 0)%N eqn:E; [apply N.eqb_eq in E | apply N.eqb_neq in E]; lia. }
+  (* P = 10^(D-1) = 2H with H a multiple of 5 *)
+  assert (HP : exists H, ((10 ^ (D - 1) = 2 * H)%N /\ (0 < H)%N)).
+  { exists (5 * 10 ^ (D - 2))%N. split.
+    - replace (D - 1)%N with (N.succ (D - 2)) by lia. rewrite N.pow_succ_r'. lia.
+    - assert (10 ^ (D - 2) <> 0)%N by (apply N.pow_nonzero; lia). lia. }
+  destruct HP as (H & HP & HH).
+  unfold round_half_even. assert (D =? 0 = false)%N as -> by (apply N.eqb_neq; lia).
+  assert (HpD : (10 ^ D = 10 * 10 ^ (D - 1))%N).
+  { replace D with (N.succ (D - 1)) at 1 by lia. apply N.pow_succ_r'. }
+  rewrite HpD, HP. set (P := (2 * H)%N) in *.
+  (* q = Q*P + R1 *)
+  pose proof (N.div_mod q P ltac:(lia)) as DQ. pose proof (N.mod_lt q P ltac:(lia)) as MQ.
+  set (Q := (q / P)%N) in *. set (R1 := (q mod P)%N) in *.
+  assert (Hm : (10 * q + s = 10 * P * Q + (10 * R1 + s))%N) by lia.
+  assert (Hlt : (10 * R1 + s < 10 * P)%N) by lia.
+  assert (Ediv : ((10 * q + s) / (10 * P) = Q)%N).
+  { symmetry. apply (N.div_unique _ _ Q (10 * R1 + s)); [exact Hlt | exact Hm]. }
+  assert (Emod : ((10 * q + s) mod (10 * P) = 10 * R1 + s)%N).
+  { symmetry. apply (N.mod_unique _ _ Q (10 * R1 + s)); [exact Hlt | exact Hm]. }
+  rewrite Ediv, Emod. clear Ediv Emod.
+  assert (Hn : Z.of_N n = (Z.of_N Q * Z.of_N P + Z.of_N R1) * Z.of_N b + Z.of_N r) by lia.
+  destruct ((5 * P <? 10 * R1 + s)%N || (10 * R1 + s =? 5 * P)%N && N.odd Q) eqn:C.
+  - (* rounded up *)
+    rewrite N2Z.inj_add. change (Z.of_N 1) with 1.
+    assert (Hup : (H < R1 \/ (R1 = H /\ s = 1) \/ (R1 = H /\ s = 0 /\ N.odd Q = true))%N).
+    { apply orb_true_iff in C. destruct C as [C|C].
+      - apply N.ltb_lt in C. unfold P in C. lia.
+      - apply andb_true_iff in C. destruct C as [C1 C2]. apply N.eqb_eq in C1. unfold P in C1. right. right. split; [lia | split; [lia | exact C2]]. }
+    assert (HPb : Z.of_N P = 2 * Z.of_N H) by (unfold P; lia).
+    destruct Hup as [U|[U|U]].
+    + assert (Z.of_N H + 1 <= Z.of_N R1) by lia. split; [nia|]. intros T. exfalso. nia.
+    + destruct U as [U1 U2]. subst R1. split; [nia|]. intros T. exfalso. nia.
+    + destruct U as (U1 & U2 & U3). subst R1. split; [nia|]. intros _.
+      rewrite Z.add_1_r, Z.even_succ. destruct Q as [|pq]; [discriminate U3 | destruct pq; cbn in U3 |- *; (reflexivity || discriminate U3)].
+  - (* rounded down *)
+    apply orb_false_iff in C. destruct C as [C1 C2]. apply N.ltb_ge in C1.
+    assert (HPb : Z.of_N P = 2 * Z.of_N H) by (unfold P; lia).
+    assert (Hdn : (R1 < H \/ (R1 = H /\ s = 0 /\ N.odd Q = false))%N).
+    { destruct (N.lt_trichotomy R1 H) as [L|[L|L]]; [left; exact L | right | unfold P in C1; lia].
+      assert (s = 0)%N by (unfold P in C1; lia). split; [exact L|]. split; [assumption|].
+      assert ((10 * R1 + s =? 5 * P)%N = true) as E by (apply N.eqb_eq; unfold P; lia). rewrite E in C2. exact C2. }
+    destruct Hdn as [U|U].
+    + assert (Z.of_N R1 + 1 <= Z.of_N H) by lia. split; [nia|]. intros T. exfalso. nia.
+    + destruct U as (U1 & U2 & U3). subst R1. split; [nia|]. intros _.
+      rewrite <- Z.negb_odd. apply negb_true_iff. destruct Q as [|pq]; [reflexivity | destruct pq; cbn in U3 |- *; (reflexivity || discriminate U3)].
+Qed.
+
+(* ddiv always drops at least three digits of 10*q + sticky, so div_sticky applies to every quotient *)
+Lemma ndigits_ge : forall n k, (10 ^ k <= n)%N -> (k < ndigits n)%N.
+Proof.
+  intros n k H. assert (Hp : (0 < n)%N). { assert (10 ^ k <> 0)%N by (apply N.pow_nonzero; lia). lia. }
+  destruct (ndigits_spec n Hp) as [[_ U] _].
+  apply (N.pow_lt_mono_r_iff 10); [lia|]. lia.
+Qed.
+
+Lemma ddiv_quotient_digits : forall ca cb, (0 < ca)%N -> (0 < cb)%N ->
+  let k := Z.to_N (Z.max 0 (36 + Z.of_N (ndigits cb) - Z.of_N (ndigits ca))) in
+  (10 ^ 35 <= ca * 10 ^ k / cb)%N.
+Proof.
+  intros ca cb Ha Hb. cbv zeta.
+  destruct (ndigits_spec ca Ha) as [[La _] Pa]. destruct (ndigits_spec cb Hb) as [[_ Ub] Pb].
+  set (k := Z.to_N (Z.max 0 (36 + Z.of_N (ndigits cb) - Z.of_N (ndigits ca)))).
+  apply N.div_le_lower_bound; [lia|].
+  assert (Hk : (ndigits cb + 35 <= (ndigits ca - 1) + k)%N) by (unfold k; lia).
+  assert (H1 : (cb * 10 ^ 35 <= 10 ^ (ndigits cb + 35))%N).
+  { rewrite N.pow_add_r. apply N.mul_le_mono_r. lia. }
+  assert (H2 : (10 ^ (ndigits cb + 35) <= 10 ^ ((ndigits ca - 1) + k))%N) by (apply N.pow_le_mono_r; lia).
+  assert (H3 : (10 ^ ((ndigits ca - 1) + k) <= ca * 10 ^ k)%N).
+  { rewrite N.pow_add_r. apply N.mul_le_mono_r. exact La. }
+  lia.
+Qed.
+
+Theorem ddiv_drops_at_least_3 : forall ca cb e, (0 < ca)%N -> (0 < cb)%N ->
+  let k := Z.to_N (Z.max 0 (36 + Z.of_N (ndigits cb) - Z.of_N (ndigits ca))) in
+  let q := (ca * 10 ^ k / cb)%N in
+  forall s, (s <= 1)%N -> 3 <= target_exp (10 * q + s) e - e.
+Proof.
+  intros ca cb e Ha Hb. cbv zeta. intros s Hs.
+  pose proof (ddiv_quotient_digits ca cb Ha Hb) as Hq. cbv zeta in Hq.
+  set (q := (ca * 10 ^ Z.to_N (Z.max 0 (36 + Z.of_N (ndigits cb) - Z.of_N (ndigits ca))) / cb)%N) in *.
+  assert (H36 : (10 ^ 36 <= 10 * q + s)%N).
+  { replace 36%N with (N.succ 35) by reflexivity. rewrite N.pow_succ_r'. set (x := (10 ^ 35)%N) in *. clearbody x. lia. }
+  pose proof (ndigits_ge _ _ H36) as Hn. unfold target_exp, PREC. lia.
+Qed.
+
+(* ---------------------------------------------------------------- the sticky-digit argument of the square root *)
+(* s = floor(sqrt n) with one extra digit saying whether n is a perfect square: as soon as at least two digits are dropped,
+   rounding 10*s + sticky is rounding sqrt n: c is nearest ((2c-1)P/2 <= sqrt n <= (2c+1)P/2, written with squares), ties to even. *)
+Lemma sqrt_sticky : forall n D, (2 <= D)%N ->
+  let s := N.sqrt n in let m := (10 * s + (if (s * s =? n)%N then 0 else 1))%N in
+  let c := Z.of_N (round_half_even m D) in let P := Z.of_N (10 ^ (D - 1)) in
+  4 * Z.of_N n <= ((2 * c + 1) * P) ^ 2 /\ (0 < c -> ((2 * c - 1) * P) ^ 2 <= 4 * Z.of_N n) /\
+  (4 * Z.of_N n = ((2 * c + 1) * P) ^ 2 -> Z.even c = true) /\
+  (0 < c -> 4 * Z.of_N n = ((2 * c - 1) * P) ^ 2 -> Z.even c = true).
+Proof.
+  intros n D HD. cbv zeta.
+  pose proof (N.sqrt_spec n ltac:(lia)) as [SL SU].
+  set (s := N.sqrt n) in *.
+  set (t := (if (s * s =? n)%N then 0 else 1)%N).
+  assert (Ht : ((t = 0 /\ s * s = n) \/ (t = 1 /\ s * s < n))%N).
+  { unfold t. destruct (s * s =? n)%N eqn:E; [apply N.eqb_eq in E | apply N.eqb_neq in E]; lia. }
+  assert (HP : exists H, ((10 ^ (D - 1) = 2 * H)%N /\ (0 < H)%N)).
+  { exists (5 * 10 ^ (D - 2))%N. split.
+    - replace (D - 1)%N with (N.succ (D - 2)) by lia. rewrite N.pow_succ_r'. lia.
+    - assert (10 ^ (D - 2) <> 0)%N by (apply N.pow_nonzero; lia). lia. }
+  destruct HP as (H & HP & HH).
+  unfold round_half_even. assert (D =? 0 = false)%N as -> by (apply N.eqb_neq; lia).
+  assert (HpD : (10 ^ D = 10 * 10 ^ (D - 1))%N).
+  { replace D with (N.succ (D - 1)) at 1 by lia. apply N.pow_succ_r'. }
+  rewrite HpD, HP. set (P := (2 * H)%N) in *.
+  pose proof (N.div_mod s P ltac:(lia)) as DQ. pose proof (N.mod_lt s P ltac:(lia)) as MQ.
+  set (Q := (s / P)%N) in *. set (R1 := (s mod P)%N) in *.
+  assert (Hm : (10 * s + t = 10 * P * Q + (10 * R1 + t))%N) by lia.
+  assert (Hlt : (10 * R1 + t < 10 * P)%N) by lia.
+  assert (Ediv : ((10 * s + t) / (10 * P) = Q)%N).
+  { symmetry. apply (N.div_unique _ _ Q (10 * R1 + t)); [exact Hlt | exact Hm]. }
+  assert (Emod : ((10 * s + t) mod (10 * P) = 10 * R1 + t)%N).
+  { symmetry. apply (N.mod_unique _ _ Q (10 * R1 + t)); [exact Hlt | exact Hm]. }
+  rewrite Ediv, Emod. clear Ediv Emod.
+  assert (HPb : Z.of_N P = 2 * Z.of_N H) by (unfold P; lia).
+  assert (Hs : Z.of_N s = Z.of_N Q * Z.of_N P + Z.of_N R1) by lia.
+  assert (ZL : Z.of_N s * Z.of_N s <= Z.of_N n) by nia.
+  assert (ZU : Z.of_N n < (Z.of_N s + 1) * (Z.of_N s + 1)).
+  { assert (N.succ s = s + 1)%N as Es by lia. rewrite Es in SU. nia. }
+  rewrite !Z.pow_2_r.
+  set (zs := Z.of_N s) in *. set (zn := Z.of_N n) in *. set (zQ := Z.of_N Q) in *. set (zH := Z.of_N H) in *. set (zR := Z.of_N R1) in *.
+  assert (Hnn : 0 <= zQ /\ 0 <= zR /\ 0 < zH /\ 0 <= zs) by (unfold zQ, zR, zH, zs; lia).
+  assert (HR : zR < 2 * zH) by (unfold zR, zH; lia).
+  set (W := zQ * (2 * zH)) in *.
+  assert (HW : 0 <= W) by (unfold W; nia).
+  assert (HsW : zs = W + zR) by (unfold W; lia).
+  assert (sq_le : forall a b, 0 <= a <= b -> a * a <= b * b) by (intros; nia).
+  assert (sq_lt : forall a b, 0 <= a < b -> a * a < b * b) by (intros; nia).
+  assert (E3 : (2 * (zQ + 1) + 1) * (2 * zH) = 2 * (W + 3 * zH)) by (unfold W; ring).
+  assert (E1 : (2 * (zQ + 1) - 1) * (2 * zH) = 2 * (W + zH)) by (unfold W; ring).
+  assert (E1' : (2 * zQ + 1) * (2 * zH) = 2 * (W + zH)) by (unfold W; ring).
+  assert (E0 : (2 * zQ - 1) * (2 * zH) = 2 * (W - zH)) by (unfold W; ring).
+  assert (HQW : 0 < zQ -> 2 * zH <= W).
+  { intros Hq. unfold W. replace (2 * zH) with (1 * (2 * zH)) at 1 by ring. apply Z.mul_le_mono_nonneg_r; lia. }
+  clearbody W.
+  destruct ((5 * P <? 10 * R1 + t)%N || (10 * R1 + t =? 5 * P)%N && N.odd Q) eqn:C.
+  - rewrite N2Z.inj_add. change (Z.of_N 1) with 1. fold zQ.
+    assert (Hup : ((H < R1)%N \/ (R1 = H /\ t = 1%N) \/ (R1 = H /\ t = 0%N /\ N.odd Q = true))).
+    { apply orb_true_iff in C. destruct C as [C|C].
+      - apply N.ltb_lt in C. unfold P in C. lia.
+      - apply andb_true_iff in C. destruct C as [C1 C2]. apply N.eqb_eq in C1. unfold P in C1. right. right. split; [lia | split; [lia | exact C2]]. }
+    rewrite HPb, E3, E1.
+    pose proof (sq_le (zs + 1) (W + 3 * zH) ltac:(lia)) as S3.
+    split; [lia|]. split; [|split; [intros T; exfalso; lia|]].
+    + intros _. destruct Hup as [U|[U|U]].
+      * pose proof (sq_le (W + zH) zs ltac:(unfold zR, zH in *; lia)). lia.
+      * pose proof (sq_le (W + zH) zs ltac:(unfold zR, zH in *; lia)). lia.
+      * pose proof (sq_le (W + zH) zs ltac:(unfold zR, zH in *; lia)). lia.
+    + intros _ T. destruct Hup as [U|[U|U]].
+      * exfalso. pose proof (sq_lt (W + zH) zs ltac:(unfold zR, zH in *; lia)). lia.
+      * exfalso. assert (zs = W + zH) as Ez by (unfold zR, zH in *; lia).
+        assert (zs * zs < zn) by (unfold zs, zn; lia). rewrite Ez in *. lia.
+      * destruct U as (_ & _ & U3). rewrite Z.add_1_r, Z.even_succ. unfold zQ.
+        destruct Q as [|pq]; [discriminate U3 | destruct pq; cbn in U3 |- *; (reflexivity || discriminate U3)].
+  - fold zQ. apply orb_false_iff in C. destruct C as [C1 C2]. apply N.ltb_ge in C1.
+    assert (Hdn : ((R1 < H)%N \/ (R1 = H /\ t = 0%N /\ N.odd Q = false))).
+    { destruct (N.lt_trichotomy R1 H) as [L|[L|L]]; [left; exact L | right | unfold P in C1; lia].
+      assert (t = 0)%N by (unfold P in C1; lia). split; [exact L|]. split; [assumption|].
+      assert ((10 * R1 + t =? 5 * P)%N = true) as E by (apply N.eqb_eq; unfold P; lia). rewrite E in C2. exact C2. }
+    rewrite HPb, E1', E0.
+    assert (L4 : 0 < zQ -> 2 * (W - zH) * (2 * (W - zH)) < 4 * zn).
+    { intros Hq. specialize (HQW Hq). pose proof (sq_lt (W - zH) zs ltac:(lia)). lia. }
+    destruct Hdn as [U|U].
+    + pose proof (sq_le (zs + 1) (W + zH) ltac:(unfold zR, zH in *; lia)) as S1.
+      split; [lia|]. split; [intros Hq; specialize (L4 Hq); lia|]. split; [intros T; exfalso; lia | intros Hq T; exfalso; specialize (L4 Hq); lia].
+    + destruct U as (U1 & U2 & U3).
+      assert (zs = W + zH) as Ez by (unfold zR, zH in *; lia).
+      assert (zs * zs = zn) as Esq by (unfold zs, zn; lia).
+      assert (Ev : Z.even zQ = true).
+      { unfold zQ. rewrite <- Z.negb_odd. apply negb_true_iff. destruct Q as [|pq]; [reflexivity | destruct pq; cbn in U3 |- *; (reflexivity || discriminate U3)]. }
+      rewrite Ez in Esq.
+      split; [lia|]. split; [intros Hq; specialize (L4 Hq); lia|]. split; [intros _; exact Ev | intros _ _; exact Ev].
+Qed.
